@@ -57,6 +57,12 @@ package server
 //@   props C20
 //@   requires serverBuilt(s)
 //@   requires handed_a_stream_by_the_runtime: stream != nil
+//@   requires no_nil_subscription_off_the_wire: forall(i, 0, len(req.GetSubscription()), req.GetSubscription()[i] != nil)
+// the interval becomes a time.Duration and feeds a ticker in the datastore: what is handed on is a positive duration
+//@   internal every_interval_handed_on_is_a_positive_duration [C20]: called(Subscribe) ==> forall(i, 0, len(req.GetSubscription()),
+//@            1000000000 <= req.GetSubscription()[i].SampleInterval && req.GetSubscription()[i].SampleInterval <= 9223372036854775807)
+//@   loop 0 invariant forall(i, 0, len(req.GetSubscription()), req.GetSubscription()[i] != nil)
+//@   loop 0 invariant forall(i, 0, $n, 1000000000 <= req.GetSubscription()[i].SampleInterval && req.GetSubscription()[i].SampleInterval <= 9223372036854775807)
 //@ func (*Server).Watch
 //@   props C20
 //@   requires serverBuilt(s)
